@@ -14,6 +14,12 @@ fn main() {
     }
     let cmd = args[1].as_str();
     let id = args[2].to_uppercase();
+    if cmd == "worker" {
+        std::process::exit(match id.as_str() {
+            "C01" => vh::wl::c01::worker_main(),
+            _ => 2,
+        });
+    }
     let mut seed = 1u64;
     let mut tier = Tier::Quick;
     let mut shard = 0usize;
